@@ -506,3 +506,115 @@ def rule_dual_refresh(ctx):
             r.ok(construct, sample={"method": name, "refresh": "on every path after the in-place gate"})
     r.floor(n, 1, "D2BP methods gating tensors in place")
     return r
+
+
+def rule_bp_cache_invalidate(ctx):
+    r = RuleResult(
+        "bp-cache-invalidate",
+        "a belief-propagation object may keep lazily filled memos of quantities computed from its messages (conditioned messages, local "
+        "contractions ...): every method that writes a message (stores into / rebinds / updates self.messages) also drops the affected "
+        "entries of every such memo — in the same method or through a helper it calls — otherwise a later value route is served a number "
+        "computed from the old messages",
+    )
+    n = 0
+    MSG = ("messages", "_messages")
+    for m in ctx.prog.modules.values():
+        if not m.name.startswith("quimb.tensor.belief_propagation"):
+            continue
+        for c in m.classes.values():
+            methods = {name: f for name, f in c.methods.items() if not f.is_alias and not isinstance(f.node, ast.Lambda)}
+            if not methods:
+                continue
+            # which methods read the messages (transitively through self-calls)
+            reads = {name for name, f in methods.items() if any(isinstance(x, ast.Attribute) and x.attr in MSG and isinstance(x.value, ast.Name) and x.value.id == "self"
+                                                                   and isinstance(x.ctx, ast.Load) for x in ast.walk(f.node))}
+            changed = True
+            while changed:
+                changed = False
+                for name, f in methods.items():
+                    if name in reads:
+                        continue
+                    for x in ast.walk(f.node):
+                        if isinstance(x, ast.Call) and isinstance(x.func, ast.Attribute) and isinstance(x.func.value, ast.Name) and x.func.value.id == "self" and x.func.attr in reads:
+                            reads.add(name)
+                            changed = True
+                            break
+            # lazily filled memos: self._X[k] = V with V computed from the messages
+            memos = {}
+            for name, f in methods.items():
+                if f.cls is not c:
+                    continue
+                for a in ast.walk(f.node):
+                    if not isinstance(a, ast.Assign):
+                        continue
+                    for t in a.targets:
+                        if isinstance(t, ast.Subscript) and isinstance(t.value, ast.Attribute) and isinstance(t.value.value, ast.Name) and t.value.value.id == "self" \
+                                and t.value.attr not in MSG and t.value.attr.startswith("_"):
+                            dep = any(isinstance(y, ast.Attribute) and y.attr in MSG for y in ast.walk(a.value)) or any(
+                                isinstance(y, ast.Call) and isinstance(y.func, ast.Attribute) and isinstance(y.func.value, ast.Name) and y.func.value.id == "self" and y.func.attr in reads
+                                for y in ast.walk(a.value))
+                            # through one local
+                            if not dep:
+                                for y in ast.walk(a.value):
+                                    if isinstance(y, ast.Name):
+                                        for d in ast.walk(f.node):
+                                            if isinstance(d, ast.Assign) and any(isinstance(tt, ast.Name) and tt.id == y.id for tt in d.targets) and (
+                                                    any(isinstance(z, ast.Attribute) and z.attr in MSG for z in ast.walk(d.value))
+                                                    or any(isinstance(z, ast.Call) and isinstance(z.func, ast.Attribute) and isinstance(z.func.value, ast.Name) and z.func.value.id == "self"
+                                                           and z.func.attr in reads for z in ast.walk(d.value))):
+                                                dep = True
+                            if dep:
+                                memos.setdefault(t.value.attr, name)
+            if not memos:
+                continue
+
+            def touches(f, attr, depth=0):
+                for x in ast.walk(f.node):
+                    if isinstance(x, ast.Call) and isinstance(x.func, ast.Attribute) and x.func.attr in ("clear", "pop") and isinstance(x.func.value, ast.Attribute) and x.func.value.attr == attr:
+                        return True
+                    if isinstance(x, ast.Assign) and any(isinstance(t, ast.Attribute) and t.attr == attr for t in x.targets):
+                        return True
+                    if isinstance(x, ast.Delete) and any(isinstance(t, ast.Subscript) and isinstance(t.value, ast.Attribute) and t.value.attr == attr for t in x.targets):
+                        return True
+                    if depth < 2 and isinstance(x, ast.Call) and isinstance(x.func, ast.Attribute) and isinstance(x.func.value, ast.Name) and x.func.value.id == "self":
+                        g = methods.get(x.func.attr)
+                        if g is not None and g is not f and touches(g, attr, depth + 1):
+                            return True
+                return False
+
+            for name, f in sorted(methods.items()):
+                if f.cls is not c or name == "__init__":
+                    continue
+                writes = [x for x in ast.walk(f.node) if
+                          (isinstance(x, (ast.Assign, ast.AugAssign)) and any(
+                              (isinstance(t, ast.Subscript) and isinstance(t.value, ast.Attribute) and t.value.attr in MSG and isinstance(t.value.value, ast.Name) and t.value.value.id == "self")
+                              or (isinstance(t, ast.Attribute) and t.attr in MSG and isinstance(t.value, ast.Name) and t.value.id == "self")
+                              for t in (x.targets if isinstance(x, ast.Assign) else [x.target])))
+                          or (isinstance(x, ast.Call) and isinstance(x.func, ast.Attribute) and x.func.attr in ("update", "pop", "clear") and isinstance(x.func.value, ast.Attribute)
+                              and x.func.value.attr in MSG)]
+                # creating an entry that did not exist (`if key not in self.messages: self.messages[key] = ...`) cannot leave a stale memo
+                def creates_only(w):
+                    for st in ast.walk(f.node):
+                        if isinstance(st, ast.If) and any(y is w for b_ in st.body for y in ast.walk(b_)):
+                            for cmp_ in ast.walk(st.test):
+                                if isinstance(cmp_, ast.Compare) and len(cmp_.ops) == 1 and isinstance(cmp_.ops[0], ast.NotIn) \
+                                        and isinstance(cmp_.comparators[0], ast.Attribute) and cmp_.comparators[0].attr in MSG:
+                                    return True
+                    return False
+                writes = [w for w in writes if not creates_only(w)]
+                if not writes:
+                    continue
+                for attr, filler in sorted(memos.items()):
+                    if name == filler and not any(isinstance(x, (ast.Assign, ast.AugAssign)) for x in writes):
+                        continue
+                    n += 1
+                    q = f"{c.name}.{name}[{attr}]"
+                    if touches(f, attr):
+                        r.ok(q, sample={"class": c.name, "message writer": name, "memo": attr, "filled in": filler, "invalidated": True})
+                    else:
+                        r.bad(Finding("bp-cache-invalidate", f"{c.name}.{name}",
+                                      f"writes messages (line {writes[0].lineno}: `{src_of(writes[0])[:50]}`) but never drops the entries of the memo `self.{attr}` "
+                                      f"(filled in {filler} from the messages): a later call is served a value computed from the old messages",
+                                      where=f"{m.relpath}:{writes[0].lineno}", operand=attr))
+    r.floor(n, 1, "(message writer, memo) pairs in the belief-propagation classes")
+    return r
